@@ -351,6 +351,31 @@ class WrappedRecord:
         return repr(self.record)
 
 
+def _selector_in(a, b):
+    if a is NONE_OBJECT or b is NONE_OBJECT:
+        return False
+    return a in b
+
+
+def _selector_not_in(a, b):
+    if a is NONE_OBJECT or b is NONE_OBJECT:
+        return False
+    return a not in b
+
+
+class _MembershipRewriter(ast.NodeTransformer):
+    """Rewrite `a in b` / `a not in b` (single comparisons) into calls of the helpers above."""
+
+    def visit_Compare(self, node):
+        self.generic_visit(node)
+        if len(node.ops) == 1 and isinstance(node.ops[0], (ast.In, ast.NotIn)):
+            name = "__selector_in__" if isinstance(node.ops[0], ast.In) else "__selector_not_in__"
+            return ast.copy_location(
+                ast.Call(func=ast.Name(id=name, ctx=ast.Load()), args=[node.left, node.comparators[0]], keywords=[]), node
+            )
+        return node
+
+
 class CompiledSelector:
     """CompiledSelector is faster than Selector but unsafe if you don't trust the query."""
 
@@ -361,12 +386,18 @@ class CompiledSelector:
         self.ns["net"] = net
 
         if expression:
-            self.code = compile(
+            tree = compile(
                 source=expression,
                 filename="<code>",
                 mode="eval",
-                flags=__future__.unicode_literals.compiler_flag,
+                flags=__future__.unicode_literals.compiler_flag | ast.PyCF_ONLY_AST,
             )
+            # Python evaluates `a not in b` as `not (a in b)` and asks the CONTAINER, so a missing field would make
+            # `not in` true (or raise for text): route plain membership tests through helpers that know the sentinel
+            tree = ast.fix_missing_locations(_MembershipRewriter().visit(tree))
+            self.ns["__selector_in__"] = _selector_in
+            self.ns["__selector_not_in__"] = _selector_not_in
+            self.code = compile(tree, filename="<code>", mode="eval")
 
     def __str__(self):
         return self.expression
